@@ -322,7 +322,9 @@ DWORD WINAPI reb_server_start(void* args){
             size_t sizep;
             data->need_copy = 1;
             pthread_mutex_lock(&(data->mutex));
+            REB_VERIF(r, "serve_b", 2, (double)r->steps_done, r->t);
             reb_simulation_save_to_stream(r, &bufp,&sizep);
+            REB_VERIF(r, "serve_e", 3, (double)r->steps_done, r->t, (double)sizep);
             data->need_copy = 0;
             pthread_mutex_unlock(&(data->mutex));
             fwrite(reb_server_header, 1, strlen(reb_server_header), stream);
